@@ -13,6 +13,8 @@ A_NOTE = ('Trusted base: CrossHair 0.0.110 + z3 (its models of int/list/str and 
           'oracle in the harness. Counterexamples are re-run concretely without CrossHair before being reported.')
 A_TECH = 'CrossHair symbolic execution (z3) of the real functions over symbolic inputs within `pre:` bounds; reachability twin per condition; concrete replay of counterexamples'
 CHECKS = {
+    'C04': ('B', 'model_checking', 'PARTIAL (plain and sequential thread servlets, no batching/ensemble): which request fails at which site is a symbolic input per request and the callers run concurrently, so the solver covers every failing subset and every interleaving of the short-circuited errors with regular results.', '3 C04'),
+    'C11': ('B', 'model_checking', 'Which worker (stage, index) fails to initialise is symbolic; a thread left behind by a failed start or by exit is a deadlock/trap state of the product, so all-or-nothing start and complete stop are the safety and progress queries over the real start/stop protocol (thread servlets; processes and pipes outside).', '3 C11'),
     'C18': ('A', 'other', 'PARTIAL: record framing (payload bytes symbolic, so newlines, spaces and header look-alikes are all in range) and the named-pipe path wiring. Matching of responses to requests under reordering and the OS FIFOs themselves are outside this check (see DESIGN.md section 4).', '3 C18'),
     'C12': ('A', 'other', 'The ways a target can end times the kill phase times the signal times the first accessor form a table no test walks; the solver walks all of it on the real reporting code with the OS facts stubbed, and the future-resolved condition is what makes wait/as_completed terminate.', '3 C12'),
     'C15': ('A', 'other', 'Loss of the traceback on a later hop or of args for exceptions with non-trivial constructors shows only for particular class/hop/re-raise combinations; all combinations of the catalogue are exhausted by the solver over real pickle round trips.', '3 C15'),
@@ -38,9 +40,7 @@ NA = {
     'C20': 'the verdict would rest on a stub of multiprocessing.Queue (feeder thread, pipe capacity) rather than on mpservice code; reproduced by hand only (DESIGN.md section 4)',
     'C13': 'planned as CrossHair harnesses over an in-process manager transport; not built in this round',
     'C14': 'planned as CrossHair harnesses over an in-process manager transport; not built in this round',
-    'C04': 'planned (Engine A units of Worker._start_single/_start_batch and ensemble _dequeue); not built in this round',
     'C09': 'planned (Engine B model of the batching threads + Engine A unit of _get_input_batch); not built in this round',
-    'C11': 'planned (Engine A start harness, Engine B stop protocol); not built in this round',
 }
 checks = []
 for pid, (eng, cat, text, ref) in CHECKS.items():
